@@ -742,13 +742,13 @@ func Gen(run *vlib.Run, seed uint64, tier string) {
 		all       bool
 	}
 	jobs := []job{
-		{"debug-cff", "Write", true}, {"debug-cff", "WriteOpenTypeCFFPDF", true}, {"debug-cff", "cff.Write", true},
-		{"small-glyf", "Write", true}, {"small-glyf", "WriteTrueTypePDF", true},
-		{"goregular", "header.Write", false}, {"goregular", "Write", false},
+		{"debug-cff", "Write", true}, {"debug-cff", "cff.Write", true}, {"small-glyf", "Write", true},
+		{"debug-cff", "WriteOpenTypeCFFPDF", tier == "thorough"}, {"small-glyf", "WriteTrueTypePDF", tier == "thorough"},
+		{"goregular", "header.Write", tier == "thorough"}, {"goregular", "Write", false},
 	}
 	if tier == "thorough" {
-		jobs = append(jobs, job{"goregular", "header.Write", true}, job{"gomono", "header.Write", true},
-			job{"gomono", "Write", false}, job{"goregular", "WriteTrueTypePDF", false})
+		jobs = append(jobs, job{"gomono", "header.Write", true}, job{"gomono", "Write", false},
+			job{"goregular", "WriteTrueTypePDF", false})
 	}
 	for _, j := range jobs {
 		t0 := time.Now()
@@ -762,6 +762,9 @@ func Gen(run *vlib.Run, seed uint64, tier string) {
 			addTarget(run, j.font, j.ent, allK(len(t.file)), "faults:every-byte")
 		} else {
 			stride := vlib.Count(tier, 4099, 257)
+			if len(t.file) < 20000 {
+				stride = 7
+			}
 			addTarget(run, j.font, j.ent, t.interestingK(stride), "faults:boundaries+stride")
 		}
 		run.Extra[fmt.Sprintf("ms:%s/%s/all=%v", j.font, j.ent, j.all)] = time.Since(t0).Milliseconds()
